@@ -30,7 +30,7 @@ func main() {
 		Level: "exploration",
 		Rule: "(a) sessions: one marbl.Stream, K=1..16 goroutines each logging 1..4 PRNG requests/responses (header multisets with repeats, empty/long/binary values, " +
 			"API flag, one in three parsed by net/http from rendered wire text with framing line none / Content-Length: 0 / Content-Length: n / chunked, bodies 0..1 MiB from an instrumented reader that returns short reads, (0,nil), (n>0,EOF), and non-EOF errors as (0,err) or (n>0,err), transient or persistent) and reading the wrapped body with PRNG " +
-			"buffer sizes 0 B..64 KiB, stopping at EOF/error, early, or after extra reads past EOF or past an error; writers: plain, slow, marbl.Handler with a websocket subscriber; plus exchanges " +
+			"buffer sizes 0 B..1 MiB, stopping at EOF/error, early, after extra reads past EOF or past an error, or closed from a second goroutine while a Read is pending on a pipe-like body (a session that never completes is decided by quiescence); writers: plain, slow, marbl.Handler with a websocket subscriber; plus exchanges " +
 			"through marbl.Modifier in a martian.Proxy. The emitted bytes are parsed by an independent parser and by marbl.Reader (must agree frame for frame) and compared per " +
 			"(id,type) with the spec and with what the consumer read. A class is (driver, writer, K bucket, message type, body-size bucket, data-frame-count bucket, how the read ended), plus (driver, type, set of Read outcome kinds seen through the wrapper). " +
 			"(b) reader inputs: random bytes, valid streams truncated at every kind of offset, bit-flipped, and with length fields replaced by {0,1,2^31-1,2^31,2^32-1,+-1,random} " +
